@@ -157,6 +157,60 @@ func (r *Run) OracleFail(key, caseLine, real, detail string) {
 	}
 }
 
+// Independent judges that a function of the code under test behaves as a function of its input alone: every case
+// is evaluated once alone (sequentially, each in turn), then all cases again interleaved from several goroutines
+// and once more alone in reverse order; any result that differs from the first evaluation is an oracle failure
+// (shared scratch buffers, pooled or package-level state, results aliasing later calls).  `eval` must build whatever
+// instance it needs itself and return a canonical rendering of everything it observed (panics are caught).
+func (r *Run) Independent(key, what string, cases []string, eval func(c string) string) {
+	safe := func(c string) (out string) {
+		defer func() {
+			if x := recover(); x != nil {
+				out = fmt.Sprintf("panic: %v", x)
+			}
+		}()
+		return eval(c)
+	}
+	first := make([]string, len(cases))
+	for i, c := range cases {
+		first[i] = safe(c)
+	}
+	again := make([]string, len(cases))
+	var wg sync.WaitGroup
+	const G = 8
+	for g := 0; g < G; g++ {
+		wg.Add(1)
+		go func(g int) {
+			defer wg.Done()
+			for i := g; i < len(cases); i += G {
+				again[i] = safe(cases[i])
+			}
+		}(g)
+	}
+	wg.Wait()
+	bad := -1
+	how := ""
+	for i := range cases {
+		if again[i] != first[i] {
+			bad, how = i, "evaluated concurrently with other inputs"
+			break
+		}
+	}
+	if bad < 0 {
+		for i := len(cases) - 1; i >= 0; i-- {
+			if o := safe(cases[i]); o != first[i] {
+				bad, how, again[i] = i, "evaluated again after other inputs", o
+				break
+			}
+		}
+	}
+	r.Case("independent/"+key, fmt.Sprintf("%s: %d inputs alone, interleaved from %d goroutines, and again in reverse order", what, len(cases), G), len(cases) > 0)
+	if bad >= 0 {
+		r.OracleFail("result-depends-on-other-calls/"+key, trunc(cases[bad], 600), fmt.Sprintf("alone: %s | %s: %s", trunc(first[bad], 700), how, trunc(again[bad], 700)),
+			what+" must depend on its input alone, not on what else is or was processed")
+	}
+}
+
 func (r *Run) Note(format string, a ...interface{}) {
 	r.mu.Lock()
 	defer r.mu.Unlock()
